@@ -830,3 +830,13 @@ Proof.
   - intros (Hne & Hd & -> & Hm). destruct ds as [|c r]; [congruence|]. rewrite Hd. cbn [andb].
     destruct (dec_value (c :: r) <=? int64_max) eqn:E; [reflexivity|lia].
 Qed.
+
+(* the headline form: within the representation, non-empty, and covering exactly the requested bytes *)
+Theorem range_canon_exact value clen specs : -1 <= clen <= int64_max -> header_specs value = Some specs ->
+  exists cs, range_run value clen = (Some (map repr specs, (match cs with [] => false | _ => true end, cs)), false) /\
+    Forall (fun c => 0 <= fst c /\ 0 < snd c /\ fst c + snd c <= clen) cs /\
+    (forall p, (exists c, In c cs /\ in_canon c p) <-> (exists s, In s specs /\ wants clen s p)).
+Proof.
+  intros Hc Hh. pose proof (range_run_spec value clen Hc) as H. rewrite Hh in H. destruct H as (cs & Hr & Hcs).
+  exists cs. split; [exact Hr|]. split; [exact (canon_of_within _ _ _ Hcs)|exact (canon_of_union _ _ _ Hcs)].
+Qed.
